@@ -6,6 +6,10 @@ EXTENDS Integers, Sequences, FiniteSets
 Alpha == 33..126
 EOT   == 0                      \* "no next character" marker used by the automata
 
+\* Str("text") denotes the tuple of ASCII codes of text: TLA+ strings are atomic, so bin/check
+\* replaces every Str("..") textually by that tuple in the scratch copy it hands to TLC.
+Str(str) == str
+
 IsLowerCh(c) == c >= 97 /\ c <= 122
 IsUpperCh(c) == c >= 65 /\ c <= 90
 IsDigitCh(c) == c >= 48 /\ c <= 57
